@@ -1122,6 +1122,8 @@ void add_cstr(char const* name)
     s.ops      = CstrDriver<C>::ops();
     s.props    = {"C02"};
     s.maxSteps = 30;
+    // under clang the library forwards most of these functions to compiler builtins
+    s.compilerNeutral = false;
     s.run      = [](Plan const& p, Ctx& c) {
         CstrDriver<C> d(p, c);
         d.run();
